@@ -80,6 +80,19 @@ func baseAlphabet() []token {
 	}
 }
 
+// reduced alphabet for longer paragraphs (more lines: consecutive flagged breaks, fitness jumps).
+func reducedAlphabet() []token {
+	return []token{
+		{box(1)},
+		{glue(1, 1, 1)},
+		{pen(0, 0, false)},
+		{box(2)},
+		{pen(1, 50, true)},
+		{glue(1, 2, 0)},
+		{pen(0, -text.Infinity, false)},
+	}
+}
+
 // macro alphabet: the item groups text.GlyphsToItems emits (written from reading it; s = 1 is
 // the "stretchWidth", the space is 1 wide, the hyphen 1 wide).
 func macroAlphabet() []token {
@@ -204,6 +217,8 @@ func features(items []oracle.KPItem, p oracle.KPParams) string {
 	return strings.Join(fs, "+")
 }
 
+var recorded = map[string]int{}
+
 func near(a, b float64) bool {
 	return math.Abs(a-b) <= 1e-9*(1+math.Abs(a)+math.Abs(b))
 }
@@ -213,7 +228,13 @@ func CheckOne(r *fw.R, items []oracle.KPItem, width float64) {
 	p := Params()
 	n := len(items)
 	viol := func(class, format string, a ...any) {
-		r.Violate(class, fmt.Sprintf("width=%g: ", width)+fmt.Sprintf(format, a...))
+		// the tally is complete; the recorded list keeps the first few per class and worker so that
+		// one root cause cannot crowd the others out of the framework's per-worker cap
+		r.Outcome("VIOLATION:" + class)
+		if recorded[class] < 12 {
+			recorded[class]++
+			r.Violate(class, fmt.Sprintf("width=%g: ", width)+fmt.Sprintf(format, a...))
+		}
 	}
 	breaks, ok := text.Linebreak(ToText(items), width, 0)
 
@@ -405,22 +426,36 @@ func unterminatedFamily(alpha []token, maxLen int) fw.Family {
 				return
 			}
 			for _, w := range widths {
-				text.Linebreak(ToText(items), w, 0)
+				func() {
+					defer func() {
+						if e := recover(); e != nil {
+							r.Outcome("VIOLATION:panic-without-final-forced-break")
+							if recorded["panic"] < 12 {
+								recorded["panic"]++
+								r.Violate("panic-without-final-forced-break", fmt.Sprintf("width=%g: %v", w, e))
+							}
+							return
+						}
+						r.Outcome("totality:returned")
+					}()
+					text.Linebreak(ToText(items), w, 0)
+				}()
 			}
-			r.Outcome("totality:returned")
 		},
 		Desc: func(i int64) string { return FmtItems(strip(i)) + " (no finishing glue/penalty)" },
 	}
 }
 
 func families(tier string) []fw.Family {
-	n, m := 5, 3
+	n, m, d := 5, 3, 6
 	if tier == "thorough" {
-		n, m = 6, 5
+		n, m, d = 6, 5, 8
 	}
 	return []fw.Family{
 		seqFamily("base-alphabet+finish", baseAlphabet(), n),
 		seqFamily("alignment-macros+finish", macroAlphabet(), m),
+		seqFamily("reduced-alphabet-long+finish", reducedAlphabet(), d),
+		unterminatedFamily(baseAlphabet(), 4),
 	}
 }
 
@@ -445,6 +480,7 @@ func Prop() *fw.Property {
 		ID:    "C17",
 		Level: "exploration",
 		Rule: "every item sequence of length <= 5 (quick) / 6 (thorough) over {Box 1/2/3, Glue(1;y in 0,1,2;z in 0,1), Glue(0,2,0), Penalty 0, Penalty(w=1,50,flagged), Penalty -inf, Penalty +inf} " +
+			"every sequence of length <= 6 / 8 over the reduced alphabet {Box 1/2, Glue(1,1,1), Glue(1,2,0), Penalty 0, Penalty(w=1,50,flagged), Penalty -inf}, " +
 			"and every sequence of <= 3 / 5 of the item groups GlyphsToItems emits (spaces, soft hyphens, newlines per alignment), each followed by Glue(0,inf,0)+Penalty(-inf), x widths 2..9, looseness 0; " +
 			"text.Linebreak compared with the brute force over ALL subsets of legal breakpoints that contain every forced break (paper's discard rule, ratio, badness, demerits; package tunables); " +
 			"one evaluation = one sequence at all 8 widths; non-trivial = at least one box and at least two legal breakpoints",
